@@ -518,6 +518,6 @@ SPEC = PropertySpec(
                  rule=RULE),
         Subcheck("settings.all_classes_exhaustive", run, enumerate=enumerate_all_classes,
                  exhaustive_note="every exported settings class x argument variants, nested in / following itself and every other class, x exception placement"),
-        Subcheck("settings.generated", run, strategy=program_strategy, quick=8000, thorough=400000, min_shard=200),
+        Subcheck("settings.generated", run, strategy=program_strategy, quick=6000, thorough=100000, min_shard=200),
     ],
 )
